@@ -11,6 +11,7 @@ EXPLANATION = (
     "built from the filter's own predicate (residual filter on top of index / range access paths) or through the "
     "zone-map EmptyOperator short-cut; (R4) candidate lists taken from index / range / label lookups in the planner are "
     "re-checked against the session snapshot. (R7) a zone-map predicate answers no-match only where the comparison with the bound produced a definite order. "
+    "(R8) pruning verdicts combine three-valued: OR says no only if both sides do, AND only if one does; (R9) an operator that sets a selection on a received chunk refines the selection the chunk carries. "
     "Row equality across strategies in general is not decided.")
 ASSUMPTIONS = ["compression / zone-map maintenance calls on PropertyStorage do not change property values"]
 
